@@ -11,7 +11,7 @@ P = {
          "and the risk-limit bound for ALPHA (every estimator), betting (fixed bet, aGRAPA), the SPRT and Kaplan-Kolmogorov, on a model shown equal entry-by-entry to a sequential spec. "
          "N = infinity: theorems for EVERY law of rational-valued (float-valued) observations, given by its expectation functional (positive, normalised, linear; no finite support or rational masses assumed; stated over Coq's reals, hence two stdlib real-number axioms), every finite horizon, for ALPHA, betting, SPRT, Kaplan-Markov, Kaplan-Wald; finite-support laws are an instance. "
          "Exact-enumeration oracles (all N! orderings, all support^n sequences) run on the implementation on every check.",
-         "Ville inequality + supermartingale proof in Coq; differential check of NNM model vs NonnegMean; exact N!/IID enumeration oracle", "4 C01"),
+         "Ville inequality + supermartingale proof in Coq (finite populations; arbitrary laws via an expectation functional); NonnegMean source regenerated into Coq and proved equal to the model; differential check; exact N!/IID enumeration oracle", "4 C01"),
  "C02": ("Theorems for all ballot profiles (PC02.v) about the assorter model; model tied to Audit.py by correspondence on generated and exhaustive small profiles; iff / range / margin oracles on the implementation.",
          "induction over card lists in Coq; differential check vs Assorter/Contest code; exact-Fraction oracle", "4 C02"),
  "C03": ("Theorem of the overstatement identity for all CVR/MVR lists, pools and phantoms on the Compare model; end-to-end correspondence with Audit.py; identity oracle in exact fractions.",
@@ -21,7 +21,7 @@ P = {
          "(non-empty output passes the checker; output empty iff no sufficient set of true assertions exists; some fuel always suffices and results are fuel-monotone). That the default fuel constant suffices is checked per run, not proved. Brute-force oracle over all n! orders on the implementation.",
          "soundness/emptiness proof of an executable model of the RAIRE search in Coq + verified checkers applied to every implementation output; output-for-output differential check; brute-force n! oracle", "4 C04"),
  "C05": ("Theorems for all samples, cut points, tails, tests, estimators and bets (PC05.v): prefix/tail/truncation clauses of the history and predictability of every estimator/bet, with no hypotheses on ranges.",
-         "sequential-machine model; predictability and prefix theorems in Coq; differential check; prefix/tail oracle on the implementation", "4 C05"),
+         "sequential-machine model; predictability and prefix theorems in Coq; estimator/bet source regenerated into Coq and proved equal to the model; differential check; prefix/tail oracle on the implementation", "4 C05"),
  "C06": ("Theorems on the Compare model for data range, the returned/installed bound and the style/threshold filter; correspondence through mvrs_to_data and set_p_values; range oracle.",
          "range lemmas in Coq; differential check through mvrs_to_data/set_p_values; range/installation oracle", "4 C06"),
  "C07": ("Theorems for all card lists, styles and size vectors on the Sampling model (selection = union of per-contest prefixes, thresholds, vote-independence); correspondence incl. exhaustive small domains; oracle from the property text.",
@@ -34,11 +34,11 @@ P = {
          "corollaries of the C07 theorems in Coq; multi-round differential check; round-history oracle", "4 C10"),
  "C11": ("Theorems for all non-empty samples in [0,u] no longer than N (PC11.v): ALPHA (any estimator), betting (shipped bets in range) and SPRT report rationals in [0,1], one per observation, never NaN, overall = smallest (or last) entry; proved on the Xq model where numpy's inf/NaN are explicit. "
          "Kaplan-Kolmogorov (finite N), Kaplan-Markov and Kaplan-Wald are proved too (random_order true: smallest entry; false: last entry).",
-         "refinement of the numpy-style model to a sequential spec + well-formedness proof in Coq; differential check incl. exhaustive small samples; range/NaN oracle", "4 C11"),
+         "refinement of the numpy-style model to a sequential spec + well-formedness proof in Coq; test bodies regenerated into Coq (skeleton + boundary masks) and proved equal to the model; differential check incl. exhaustive small samples; range/NaN oracle", "4 C11"),
  "C12": ("Theorems (PC12.v): reported terms equal the sequential spec; product definitions while all null means are inside (0,u); p=0 / p=1 boundary clauses; ALPHA = betting for eta = mu(1+lam(u-mu)); conversions inverse; Kaplan-Wald, Kaplan-Markov, Kaplan-Kolmogorov and SPRT histories equal min(1, 1/T_j) of their defining products. The same definitions are re-derived in exact arithmetic by an oracle on every implementation output, including samples of 65..3000 draws and other units.",
-         "field identities and refinement proof in Coq; differential check; exact re-derivation oracle of every history from the published products", "4 C12"),
+         "field identities and refinement proof in Coq; product expressions and test bodies regenerated into Coq and proved equal to the model; differential check; exact re-derivation oracle of every history from the published products", "4 C12"),
  "C13": ("Theorems for all samples and parameters in the documented ranges (PC13.v): ranges of every shipped estimator and bet, strictness of shrink-truncate above mu_j (up to the code's one-ulp truncation constant), non-negativity of factors; sqrt abstract.",
-         "machine-invariant range proofs in Coq; differential check on grid and extreme streams; range oracle", "4 C13"),
+         "machine-invariant range proofs in Coq; estimator/bet formulas regenerated into Coq with range lemmas on the generated text; differential check on grid and extreme streams; range oracle", "4 C13"),
  "C14": ("Theorems for every candidate set, duplicate-free ranking and (w,l,E) (PC14.v): audit assorter = (w-l+1)/2 of the generator's verdicts, mean/tally corollary, both RAIRE readers agree on whole files, re-tally; exhaustive correspondence over all partial rankings of <=4(5) candidates.",
          "induction on rankings in Coq; exhaustive differential check of both implementations; equality oracle", "4 C14"),
  "C15": ("Theorems (PC15.v): the verified `opt` equals the minimax difficulty over all sufficient sets of true assertions; and the executable model of the RAIRE search (compared output-for-output with compute_raire_assertions on every run) returns a set whose largest difficulty EQUALS that optimum, "
